@@ -27,7 +27,7 @@ ENTRIES = {
                 "0..n+10 x 0..n+3 and drop/duplicate/swap/replace/append mutations of aunts, replaced leaf (argument, "
                 "proof copy, both) and replaced root (thorough: aunt mutations x index/total too), checks that the "
                 "design is complete and sound, and emits the cases with verdicts. Each case is executed on the real "
-                "MerkleProof::verify with real SHA-256; cases whose leaf count is a DAH size (4, 8, 16 roots) are also "
+                "MerkleProof::verify with real SHA-256; cases whose leaf count is a DAH size (8 roots, thorough also 16; a 2x2 EDS has equal row and column roots and is left out) are also "
                 "executed as RowProof and ShareProof over a real EDS/DAH (leaf = row root, aunts = DAH tree nodes). "
                 "spec/RowProof.tla enumerates claimed spans over u16 edge values x numbers of roots/proofs and all "
                 "namespace placements in a 4x4 ODS x 19 alterations (shares, NMT nodes, row roots, DAH aunts, span, "
@@ -56,12 +56,12 @@ def run(ck):
     nmax = 9 if ck.quick else 17
     consts = {"NMax": nmax, "IExtra": 10, "TExtra": 3, "Pairs": "FALSE", "CheckIndex": "TRUE", "BindTotal": "TRUE"}
     # 1. the design satisfies the property
-    ck.tlc_mc("MC_Merkle", ck.cfg_with("MC_Merkle.cfg", consts))
+    ck.tlc_mc("MC_Merkle", ck.cfg_with("MC_Merkle.cfg", consts), workers=1)  # one initial-state sweep: a single worker is fastest
     # 1b. named deviation: leaf count not bound to the root (as the code is) -> expected counterexample
     dev = dict(consts, BindTotal="FALSE", NMax=5)
-    ck.tlc_mc("MC_Merkle", ck.cfg_with("MC_Merkle.cfg", dev, name="MC_Merkle_asis.cfg"), tag="mc_asis",
+    ck.tlc_mc("MC_Merkle", ck.cfg_with("MC_Merkle.cfg", dev, name="MC_Merkle_asis.cfg"), tag="mc_asis", workers=1,
               expect_violation="Sound")
-    ck.tlc_mc("MC_RowProof", ck.cfg_with("MC_RowProof.cfg", {"W": 4, "MaxLists": 4}))
+    ck.tlc_mc("MC_RowProof", ck.cfg_with("MC_RowProof.cfg", {"W": 4, "MaxLists": 4}), workers=1)
     # 2. spec -> impl
     cases, n1 = ck.tlc_gen("Gen_Merkle", ck.cfg_with("Gen_Merkle.cfg", consts), "merkle.ndjson", count_stats=False)
     s = ck.harness(hb, ["replay", "merkle", cases, "--seed", ck.seed], "merkle")
